@@ -826,6 +826,14 @@ func (e Engine) Exec(sci interface{}, opt harness.ExecOpts) *harness.Outcome {
 	}
 
 	// coverage
+	for _, t := range sc.Tasks {
+		for _, op := range t.Ops {
+			out.Probe("op:" + op.Kind)
+			if op.Nested != "" && (op.Kind == "call" || op.Nested == "deepexec" || op.Nested == "panicimport") {
+				out.Probe("op:" + op.Kind + ":" + op.Nested)
+			}
+		}
+	}
 	if overlap {
 		out.Probe("close_overlaps_request")
 	}
